@@ -91,6 +91,10 @@ type collection struct {
 	// implementation, when using the Collection as a cache.
 	lowerLevelSnapshot *SnapshotWrapper
 
+	// midHandOverSkipped is true when the merger could not hand the
+	// stackDirtyMid to the persister because the persister was busy.
+	midHandOverSkipped bool
+
 	// histograms from collection operations
 	histograms ghistogram.Histograms
 
